@@ -1,6 +1,226 @@
-import PGM.Model.RegionGraph
-import PGM.Model.FactorGraph
-/-! C17 — The convex region-graph oracle solves its variational problem.
-Statements and proofs to be added; the executable model is `PGM.RG` / `PGM.FG`. -/
+import PGM.Proofs.ConvexSem
+import PGM.Proofs.ConvexCheck
+import PGM.Proofs.OracleSem
+/-!
+# C17 — the convex region-graph oracle solves its variational problem
+
+Model: `hazan_peng_shashua` with persisted messages (`RG.hpsSweep`, `RG.hpsLoop`, `RG.hps`) and the
+objects of its derivation (`RG.thetaTilde`, `RG.lagrangianBeliefs`, `RG.dualValue`, `RG.primalValue`,
+`RG.entropy`) in `PGM/Model/RegionGraph.lean`; real-number instance.
+
+`F(q) = Σ_r ⟨θ_r, q_r⟩ + Σ_r H(q_r)` is the potential-weighted mass plus the sum of region entropies;
+`D(λ) = T·Σ_r logsumexp(θ̃_r(λ))` its Lagrangian dual; `b_r(λ) = T·softmax(θ̃_r(λ))`.
+
+* `belief_lagrangian_form` — what every sweep returns *is* `b(λ)` for the messages it leaves behind;
+* `weak_duality` — `F(q) ≤ D(λ)` for every message vector and every locally consistent `q`
+  (multiplier terms telescope along the edges; each region term is Gibbs' inequality);
+* `strong_at_consistency` — if `b(λ)` agrees on every shared sub-region it attains `D(λ)`, hence
+  **maximises `F` over all locally consistent pseudo-marginals**; `unique_at_zero_gap` — and it is the
+  **unique** maximiser (strict Gibbs);
+* `gap_bound` — for a feasible `b`, the optimum exceeds `F(b)` by at most `D(λ) − F(b)`: the
+  a-posteriori certificate each run evaluates;
+* `build_shape`, `shape_preserved`, `hps_certificate` — the hypotheses (`Shape`) hold for every graph
+  produced by `RG.build` from duplicate-free cliques over the domain, are preserved by every sweep,
+  and therefore the certificate holds for the messages and beliefs `RG.hps` actually returns;
+* `hps_tables_normalised`, `hps_tables_valid_pos`, `hps_keys`, `hps_disjoint` — one valid table per region.
+
+`partial`: that the sweeps *converge* (reach consistency) is not proved — it is the convergence theory
+of norm-product BP — and is decided per input: sweeps are escalated until the edge disagreement is
+≤ 1e-6·T, then the proved certificate decides optimality.  The statements that were false as first
+written are kept as counterexample theorems (`weak_duality_needs_parents_nodup`,
+`belief_lagrangian_form_needs_nodup`, `shape_not_preserved_without_down`).
+-/
 namespace PGM.C17
+open PGM PGM.JT PGM.RG PGM.Convex PGM.Oracle
+
+/-- the returned beliefs depend on the messages only through the upward messages and are
+`total · softmax(θ̃_r)`: the model's last step of every sweep *is* `lagrangianBeliefs` (unit counting
+numbers).  CORRECTED: needs `g.regions.Nodup` (`belief_lagrangian_form_needs_nodup`); no other
+hypothesis on the graph, the potentials or the messages. -/
+theorem belief_lagrangian_form (g : RG.Graph) (pot : Region → Factor ℝ) (T rho : ℝ) (msgs : Msgs ℝ)
+    (hnd : g.regions.Nodup) :
+    (hpsSweep g pot (fun _ => 1) T rho msgs).2.map (fun p => (p.1, p.2.datavector))
+      = (lagrangianBeliefs g pot T (hpsSweep g pot (fun _ => 1) T rho msgs).1).map (fun p => (p.1, p.2.datavector)) :=
+  PGM.Convex.belief_lagrangian_form g pot T rho msgs hnd
+
+/-- **weak duality**: for every message vector and every locally consistent family `q`,
+`F(q) ≤ D(λ)` — the multiplier terms telescope on consistent `q`, each region term is Gibbs'
+inequality -/
+theorem weak_duality (dom : Dom) (g : RG.Graph) (pot : Region → Factor ℝ) (T : ℝ) (msgs : Msgs ℝ)
+    (q : CliqueVec ℝ) (hT : 0 < T) (hs : Shape dom g pot msgs) (hq : LocallyConsistent dom g T q) :
+    primalValue g pot T q ≤ dualValue g pot T msgs :=
+  PGM.Convex.weak_duality dom g pot T msgs q hT hs hq
+
+/-- **gap certificate**: for any feasible family `b̃`, the optimum of the variational problem
+exceeds `F(b̃)` by at most `D(λ) − F(b̃)` -/
+theorem gap_bound (dom : Dom) (g : RG.Graph) (pot : Region → Factor ℝ) (T : ℝ) (msgs : Msgs ℝ)
+    (b q : CliqueVec ℝ) (hT : 0 < T) (hs : Shape dom g pot msgs)
+    (hb : LocallyConsistent dom g T b) (hq : LocallyConsistent dom g T q) :
+    primalValue g pot T q - primalValue g pot T b ≤ dualValue g pot T msgs - primalValue g pot T b :=
+  PGM.Convex.gap_bound dom g pot T msgs b q hT hs hb hq
+
+/-- **strong duality at consistency**: if the beliefs `b(λ)` are themselves consistent along the
+edges, they attain the dual value, hence maximise `F` over all locally consistent families -/
+theorem strong_at_consistency (dom : Dom) (g : RG.Graph) (pot : Region → Factor ℝ) (T : ℝ) (msgs : Msgs ℝ)
+    (hT : 0 < T) (hs : Shape dom g pot msgs)
+    (hb : LocallyConsistent dom g T (lagrangianBeliefs g pot T msgs)) :
+    primalValue g pot T (lagrangianBeliefs g pot T msgs) = dualValue g pot T msgs ∧
+    ∀ q, LocallyConsistent dom g T q → primalValue g pot T q ≤ primalValue g pot T (lagrangianBeliefs g pot T msgs) :=
+  PGM.Convex.strong_at_consistency dom g pot T msgs hT hs hb
+
+/-- **uniqueness** (strict Gibbs): a locally consistent family that attains the dual value is the
+Lagrangian belief family, table by table -/
+theorem unique_at_zero_gap (dom : Dom) (g : RG.Graph) (pot : Region → Factor ℝ) (T : ℝ) (msgs : Msgs ℝ)
+    (q : CliqueVec ℝ) (hT : 0 < T) (hs : Shape dom g pot msgs) (hq : LocallyConsistent dom g T q)
+    (heq : primalValue g pot T q = dualValue g pot T msgs) :
+    ∀ r ∈ g.regions, (q.get r).datavector = ((lagrangianBeliefs g pot T msgs).get r).datavector :=
+  PGM.Convex.unique_at_zero_gap dom g pot T msgs q hT hs hq heq
+
+/-- **`Shape` (and `MsgsDown`) hold for every `RG.build` graph with the initial messages**: the only
+assumptions are on the inputs — a well-formed domain with positive sizes, cliques that are
+duplicate-free lists of attributes of the domain, and potentials laid out on the regions -/
+theorem build_shape (dom : Dom) (cliques : List Region) (convex minimal : Bool) (pot : Region → Factor ℝ)
+    (hd : dom.WF) (hsz : ∀ p ∈ dom, 0 < p.2) (hcl : ∀ c ∈ cliques, c.Nodup ∧ ∀ a ∈ c, a ∈ dom.attrs)
+    (hpot : ∀ r ∈ (RG.build cliques convex minimal).regions, (pot r).WF ∧ (pot r).dom = dom.project r) :
+    Shape dom (RG.build cliques convex minimal) pot
+        (initMessages dom (RG.build cliques convex minimal).messageOrder) ∧
+      MsgsDown dom (RG.build cliques convex minimal)
+        (initMessages dom (RG.build cliques convex minimal).messageOrder) :=
+  PGM.Convex.build_shape dom cliques convex minimal pot hd hsz hcl hpot
+
+/-- **the certificate for the convex oracle as run**: for `g = RG.build cliques true minimal`, the
+messages `λ` and beliefs `b` returned by `hazan_peng_shashua` started from the initial messages
+satisfy (1) `b = b(λ)` table by table, (2) `F(q) ≤ D(λ)` for every locally consistent `q`, hence
+(3) if `b` is locally consistent it is optimal with zero gap -/
+theorem hps_certificate (dom : Dom) (cliques : List Region) (minimal : Bool) (potentials : CliqueVec ℝ)
+    (T rho conv : ℝ) (iters : Nat) (hT : 0 < T) (hit : 0 < iters)
+    (hd : dom.WF) (hsz : ∀ p ∈ dom, 0 < p.2) (hcl : ∀ c ∈ cliques, c.Nodup ∧ ∀ a ∈ c, a ∈ dom.attrs)
+    (hp : ∀ r ∈ (RG.build cliques true minimal).regions,
+      (potentials.get r).WF ∧ (potentials.get r).dom = dom.project r) :
+    let g := RG.build cliques true minimal
+    let pot := potOf dom g potentials
+    let out := RG.hps dom g (fun _ => 1) potentials T iters rho conv (initMessages dom g.messageOrder)
+    out.1.map (fun p => (p.1, p.2.datavector))
+        = (lagrangianBeliefs g pot T out.2.1).map (fun p => (p.1, p.2.datavector)) ∧
+    Shape dom g pot out.2.1 ∧
+    (∀ q, LocallyConsistent dom g T q → primalValue g pot T q ≤ dualValue g pot T out.2.1) ∧
+    (LocallyConsistent dom g T (lagrangianBeliefs g pot T out.2.1) →
+      primalValue g pot T (lagrangianBeliefs g pot T out.2.1) = dualValue g pot T out.2.1) :=
+  PGM.Convex.hps_certificate dom cliques minimal potentials T rho conv iters hT hit hd hsz hcl hp
+
+/-- **weak duality is false under the original hypotheses** (`Shape₀`, i.e. without
+`parents_nodup`): a parent listed twice is subtracted twice -/
+theorem weak_duality_needs_parents_nodup :
+    ¬ ∀ (dom : Dom) (g : RG.Graph) (pot : Region → Factor ℝ) (T : ℝ) (msgs : Msgs ℝ) (q : CliqueVec ℝ),
+      0 < T → Shape₀ dom g pot msgs → LocallyConsistent dom g T q →
+      primalValue g pot T q ≤ dualValue g pot T msgs :=
+  PGM.Convex.weak_duality_needs_parents_nodup 
+
+/-- the statement as first written (no hypothesis on `g`) is false: on a region list with a
+repeated region the belief *dictionary* has one entry per key, `lagrangianBeliefs` has one per
+list element -/
+theorem belief_lagrangian_form_needs_nodup :
+    ¬ ∀ (g : RG.Graph) (pot : Region → Factor ℝ) (T rho : ℝ) (msgs : Msgs ℝ),
+      (hpsSweep g pot (fun _ => 1) T rho msgs).2.map (fun p => (p.1, p.2.datavector))
+        = (lagrangianBeliefs g pot T (hpsSweep g pot (fun _ => 1) T rho msgs).1).map
+            (fun p => (p.1, p.2.datavector)) :=
+  PGM.Convex.belief_lagrangian_form_needs_nodup 
+
+/-- **`Shape` alone is not an invariant of the sweep** (the statement
+`Shape dom g pot msgs → Shape dom g pot (hpsSweep …).1` is false): the upward update subtracts the
+downward message `messages[p, r]`, whose layout `Shape` does not constrain -/
+theorem shape_not_preserved_without_down :
+    ¬ ∀ (dom : Dom) (g : RG.Graph) (pot : Region → Factor ℝ) (msgs : Msgs ℝ) (T rho : ℝ),
+      Shape dom g pot msgs → Shape dom g pot (hpsSweep g pot (fun _ => 1) T rho msgs).1 :=
+  PGM.Convex.shape_not_preserved_without_down 
+
+theorem hps_tables_normalised (dom : Dom) (g : RG.Graph) (counting : RG.Region → ℝ) (pots : CliqueVec ℝ)
+    (T : ℝ) (iters : Nat) (rho conv : ℝ) (msgs : RG.Msgs ℝ) (p : Clique × Factor ℝ)
+    (hp : p ∈ (RG.hps dom g counting pots T iters rho conv msgs).1) :
+    ∃ b : Factor ℝ, p.2 = RG.normalise T b :=
+  PGM.Oracle.hps_tables_normalised dom g counting pots T iters rho conv msgs p hp
+
+theorem hps_keys (dom : Dom) (g : RG.Graph) (counting : RG.Region → ℝ) (pots : CliqueVec ℝ)
+    (T : ℝ) (iters : Nat) (rho conv : ℝ) (msgs : RG.Msgs ℝ) (hi : 0 < iters) (hnd : g.regions.Nodup) :
+    (RG.hps dom g counting pots T iters rho conv msgs).1.map Prod.fst = g.regions :=
+  PGM.Oracle.hps_keys dom g counting pots T iters rho conv msgs hi hnd
+
+/-- **the convex oracle returns valid tables** under the same kind of hypotheses -/
+theorem hps_tables_valid_pos (dom : Dom) (g : RG.Graph) (counting : RG.Region → ℝ) (pots : CliqueVec ℝ)
+    (T : ℝ) (iters : Nat) (rho conv : ℝ) (msgs : RG.Msgs ℝ) (hT : 0 < T)
+    (hpot : ∀ r ∈ g.regions, PosDom (RG.potOf dom g pots r).dom ∧
+      ∀ p ∈ RG.look g.parents r, PosDom (RG.potOf dom g pots p).dom)
+    (hsz : ∀ r ∈ g.regions, (RG.potOf dom g pots r).vals.data.size ≠ 0)
+    (hm : PosMsgs msgs)
+    (p : Clique × Factor ℝ) (hp : p ∈ (RG.hps dom g counting pots T iters rho conv msgs).1) :
+    ValidTable T p.2 :=
+  PGM.Oracle.hps_tables_valid_pos dom g counting pots T iters rho conv msgs hT hpot hsz hm p hp
+
+theorem hps_disjoint (dom : Dom) (cliques : List Clique) (pots : CliqueVec ℝ) (T : ℝ) (iters : Nat)
+    (rho conv : ℝ) (hi : 0 < iters) (hd : Disjoint cliques) (hnd : cliques.Nodup) (hne : ∀ c ∈ cliques, c ≠ [])
+    (c : Clique) (hc : c ∈ cliques) :
+    let g := RG.build cliques true true
+    ((RG.hps dom g (fun _ => 1) pots T iters rho conv (RG.initMessages dom g.messageOrder)).1.get c).datavector
+      = (RG.normalise T (pots.get c)).datavector :=
+  PGM.Oracle.hps_disjoint dom cliques pots T iters rho conv hi hd hnd hne c hc
+
+/-! ## the certificate for any graph that passes the executable check `RG.graphCheck`
+
+The implementation iterates a Python `set` of regions, so its graph is the model's `buildOn` for *its own* region
+order; each run exports that graph and evaluates `RG.graphCheck` on it (driver field `graph_check`). -/
+
+/-- **soundness of the run-time check** -/
+theorem graphCheck_sound {dom : Dom} {g : RG.Graph} (h : graphCheck dom g = true) :
+    dom.WF ∧ (∀ p ∈ dom, 0 < p.2) ∧ g.regions.Nodup ∧ (∀ r ∈ g.regions, RegOK dom r) ∧ BuiltOK g :=
+  PGM.Convex.graphCheck_sound h
+
+/-- **the certificate for any exported graph that passes the run-time check**, cold start
+(`initMessages`): the statement of `hps_certificate` with `graphCheck dom g = true` in place of
+`g = RG.build …`; the potentials need to be laid out only on the regions that are model cliques -/
+theorem hps_certificate_checked (dom : Dom) (g : RG.Graph) (potentials : CliqueVec ℝ)
+    (T rho conv : ℝ) (iters : Nat) (hT : 0 < T) (hit : 0 < iters)
+    (hchk : graphCheck dom g = true)
+    (hp : ∀ r ∈ g.regions, g.cliques.contains r = true →
+      (potentials.get r).WF ∧ (potentials.get r).dom = dom.project r) :
+    let pot := potOf dom g potentials
+    let out := RG.hps dom g (fun _ => 1) potentials T iters rho conv (initMessages dom g.messageOrder)
+    out.1.map (fun p => (p.1, p.2.datavector))
+        = (lagrangianBeliefs g pot T out.2.1).map (fun p => (p.1, p.2.datavector)) ∧
+    Shape dom g pot out.2.1 ∧
+    MsgsDown dom g out.2.1 ∧
+    (∀ q, LocallyConsistent dom g T q → primalValue g pot T q ≤ dualValue g pot T out.2.1) ∧
+    (LocallyConsistent dom g T (lagrangianBeliefs g pot T out.2.1) →
+      primalValue g pot T (lagrangianBeliefs g pot T out.2.1) = dualValue g pot T out.2.1 ∧
+      ∀ q, LocallyConsistent dom g T q →
+        primalValue g pot T q ≤ primalValue g pot T (lagrangianBeliefs g pot T out.2.1)) :=
+  PGM.Convex.hps_certificate_checked dom g potentials T rho conv iters hT hit hchk hp
+
+/-- **warm start**: for any graph, any potentials and any persisted messages satisfying
+`Shape ∧ MsgsDown`, the output of `hazan_peng_shashua` (any `iters > 0`) satisfies
+(1) beliefs `= b(λ_out)` table by table, (2) `Shape` and (3) `MsgsDown` for `λ_out` (so the theorem
+chains over successive calls), (4) `F(q) ≤ D(λ_out)` for every locally consistent `q`,
+(5) zero gap if `b(λ_out)` is locally consistent -/
+theorem hps_certificate_warm (dom : Dom) (g : RG.Graph) (potentials : CliqueVec ℝ)
+    (T rho conv : ℝ) (iters : Nat) (msgs : Msgs ℝ) (hT : 0 < T) (hit : 0 < iters)
+    (hs : Shape dom g (potOf dom g potentials) msgs) (hd : MsgsDown dom g msgs) :
+    let pot := potOf dom g potentials
+    let out := RG.hps dom g (fun _ => 1) potentials T iters rho conv msgs
+    out.1.map (fun p => (p.1, p.2.datavector))
+        = (lagrangianBeliefs g pot T out.2.1).map (fun p => (p.1, p.2.datavector)) ∧
+    Shape dom g pot out.2.1 ∧
+    MsgsDown dom g out.2.1 ∧
+    (∀ q, LocallyConsistent dom g T q → primalValue g pot T q ≤ dualValue g pot T out.2.1) ∧
+    (LocallyConsistent dom g T (lagrangianBeliefs g pot T out.2.1) →
+      primalValue g pot T (lagrangianBeliefs g pot T out.2.1) = dualValue g pot T out.2.1 ∧
+      ∀ q, LocallyConsistent dom g T q →
+        primalValue g pot T q ≤ primalValue g pot T (lagrangianBeliefs g pot T out.2.1)) :=
+  PGM.Convex.hps_certificate_warm dom g potentials T rho conv iters msgs hT hit hs hd
+
+/-- the same for `RG.buildOn` on any duplicate-free list of well-formed regions (the
+implementation's own iteration order) -/
+theorem buildOn_passes_check (dom : Dom) (regions : List Region) (convex minimal : Bool)
+    (hd : dom.WF) (hsz : ∀ p ∈ dom, 0 < p.2) (hnd : regions.Nodup) (hreg : ∀ r ∈ regions, RegOK dom r) :
+    graphCheck dom (RG.buildOn regions convex minimal) = true :=
+  PGM.Convex.buildOn_passes_check dom regions convex minimal hd hsz hnd hreg
+
 end PGM.C17
